@@ -138,6 +138,25 @@ def check_function(chk, f, maskname="Smask", specname="S"):
     stores = mask_stores(o, maskname)
     chk.require(stores, f"{f.short}: no boolean stores into {maskname}._data found")
     n_ordered = 0
+    # selection by *threshold*: `mask[block] = vals >= vals[idx[-K]]` compares with the K-th largest value instead of taking K positions
+    for n in A.walk_local(f.node, include_self=False):
+        if not (isinstance(n, ast.Assign) and len(n.targets) == 1 and isinstance(n.targets[0], ast.Subscript) and isinstance(n.value, ast.Compare)
+                and len(n.value.ops) == 1 and isinstance(n.value.ops[0], (ast.Gt, ast.GtE, ast.Lt, ast.LtE))):
+            continue
+        base = n.targets[0].value
+        if isinstance(base, ast.Subscript):
+            base = base.value
+        if A.text(base) not in (f"{maskname}._data", f"{maskname}.data") and A.text(n.targets[0].value) not in (f"{maskname}._data", f"{maskname}.data"):
+            continue
+        sides = [n.value.left, n.value.comparators[0]]
+        pivot = [x for x in sides if isinstance(x, ast.Subscript) and isinstance(x.slice, ast.Subscript) and o.order_of(x.slice.value, at=n) is not None]
+        if pivot:
+            n_ordered += 1
+            strict = isinstance(n.value.ops[0], (ast.Gt, ast.Lt))
+            chk.bad("D1", (f, n), n, f"`{A.short(n, 70)}` selects by comparison with the K-th largest value instead of taking K positions of the ordering: "
+                    + ("values equal to it are dropped, fewer than K are kept" if strict else
+                       "all values equal to it survive, so a sector with exact ties at the cut (identity-like spectra, degenerate multiplets) keeps more "
+                       "values than the limit allows and displaces other sectors in the global stage"))
     for st, block, idx, val in stores:
         if not (isinstance(idx, ast.Subscript) and isinstance(idx.slice, ast.Slice)):
             if isinstance(idx, ast.Slice) and not (idx.lower is None and idx.upper is None):
@@ -464,6 +483,7 @@ def run(chk):
     from . import e10
     e10.run_U(chk, ("yastn.tensor.linalg",), floor1=5, floor2=1)
     run_D8(chk)
+    run_D2rel(chk)
 
 
 def _param_deps(prog, f, expr, at=None, depth=0):
@@ -514,6 +534,35 @@ def _param_deps(prog, f, expr, at=None, depth=0):
     visit_expr(expr)
     # control dependence of the expression's own position
     return out
+
+
+def run_D2rel(chk):
+    """D2 (relative tolerance): in `X > tol * max_abs(Y)` the reference maximum is taken over the very values that are compared
+    (Y == X after resolving single-assignment temporaries).  A maximum taken over other data -- the raw spectrum instead of the
+    values that survived the block stage -- lets discarded values set the scale and survivors fall below a tolerance they meet."""
+    prog = chk.prog
+    n = 0
+    for name in ("truncation_mask", "truncation_mask_multiplets", "_find_gaps"):
+        f = prog.func(LINALG, name)
+        inl = A.Inliner(f.node)
+        for c in ast.walk(f.node):
+            if not (isinstance(c, ast.Compare) and len(c.ops) == 1 and isinstance(c.ops[0], (ast.Gt, ast.GtE, ast.Lt, ast.LtE))):
+                continue
+            left, right = (c.left, c.comparators[0]) if isinstance(c.ops[0], (ast.Gt, ast.GtE)) else (c.comparators[0], c.left)
+            r = inl.expand(right)
+            mx = [x for x in ast.walk(r) if isinstance(x, ast.Call) and (A.callee_attr(x) or A.call_name(x) or "").split(".")[-1] in ("max_abs", "max", "amax") and len(x.args) == 1]
+            if not mx or not any(isinstance(x, ast.Name) and x.id.startswith("tol") for x in ast.walk(r)):
+                continue
+            n += 1
+            L = A.text(inl.expand(left))
+            M = A.text(inl.expand(mx[0].args[0]))
+            norm = lambda t: t.replace("._data", ".data")
+            same = norm(L) == norm(M) or norm(M) in (f"abs({norm(L)})",)
+            chk.verdict("D2", (f, c), f"{name}: `{A.short(c, 70)}`: maximum over the compared values", True if same else False,
+                        f"{name}(): `{A.short(c, 60)}` compares `{L[:50]}` with a tolerance relative to the maximum of `{M[:50]}` -- other data: values that do "
+                        f"not take part (e.g. those already masked in the block stage) set the scale, and values that meet the tolerance relative to "
+                        f"the surviving maximum are discarded")
+    chk.require(n >= 2, f"relative-tolerance comparisons `X > tol * max_abs(X)` not found (found {n}, 2 confirmed by hand)")
 
 
 def run_D8(chk):
